@@ -74,6 +74,7 @@ TNumeric ==
   /\ Chk("jit_equals_eager", CloseSeq(Ev.jit, Ev.eager))
   /\ Chk("vmap_equals_stacked_eager", \A b \in 1..Len(Ev.vmap) : CloseSeq(Ev.vmap[b], Ev.eager_batch[b]))
   /\ Chk("second_call_with_same_arguments_gives_same_result", Ev.eager_again = Ev.eager)
+  /\ Chk("result_does_not_depend_on_what_the_users_model_holds", Ev.same_after_user_change)
   /\ Chk("input_state_not_modified", Ev.arg_unchanged)
   /\ Chk("users_model_not_modified", Ev.user_unchanged)
   /\ Chk("extract_returns_the_position", CloseSeq(Ev.extracted, Ev.pos_vals))
